@@ -9,6 +9,34 @@ hook_commits = [l.split()[0] for l in HOOK_COMMITS if "verif" in l.lower() and n
 
 # id -> (engine, technique, level text, level note, design ref)
 CHECKS = {
+    "C13": (
+        "E3",
+        "complete enumeration of the finite identifier space (every alias x 34 prefixes x long/short spellings) against declarations scanned from the .nbt sources and an independent prefix table; plus whole-space long-session passes",
+        "The complete set of (unit alias, prefix, spelling) strings of the whole standard library (about 44k identifiers) is enumerated. For each: the expected reading is computed from the unit declarations in the module sources and an independent SI/IEC prefix table; uniqueness of readings over the whole set, resolution by the session's prefix parser, evaluation through the full pipeline (tokenizer to VM), the prefix factor, and the display -> re-read round trip are checked; all accepted spellings are additionally evaluated in one session in both orders.",
+        "Trusted: the .nbt declaration scanner and the hard-coded SI/IEC prefix table; user-defined units are out of scope (property is about the standard library).",
+        "§4 C13",
+    ),
+    "C17": (
+        "E1",
+        "explicit-state exploration of the module-subset lattice through every import order (all ordered pairs / triples) on real sessions; confluence + idempotence invariants",
+        "State = set of imported standard-library modules, action = `use M` for each of the 62 modules. All ordered pairs (quick) and all ordered triples (thorough) are executed on real sessions; every import must succeed, re-importing any already imported module must leave the observation unchanged, and every set must have one observation regardless of the order that reached it (names, bit-exact constant values, signatures, units, dimensions).",
+        "Trusted: the static session observation as the notion of 'same names, types and constant values'; sets larger than k are covered only by the two all-module orders.",
+        "§4 C17",
+    ),
+    "C06": (
+        "E1",
+        "explicit-state BFS over session histories on real Contexts (clone-and-step), deduplicated on a full observation hash; before/after + k-step continuation equality on every failing transition",
+        "States are sessions reached by successful inputs over an alphabet that contains every failure kind (also inside imported modules and after successful statements/imports). In every reachable state (to the depth bound) every alphabet input is executed on a clone; for every failing one the complete observation (names, raw values, signatures, units, dimensions, imported modules, VM shape, outcome of every one-step continuation) must be identical before and after, and in the thorough tier all two-step continuations are compared as well. Two drivers: a no-prelude session over an in-memory module tree and a prelude session with real modules.",
+        "Trusted: the observation function as the notion of 'behaves the same' (differences that need more than k further steps and touch nothing observed are missed); alphabet- and depth-bounded.",
+        "§4 C06",
+    ),
+    "C07": (
+        "E1",
+        "depth-first enumeration of all all-successful input histories up to length n on real Contexts; per history all block compositions, real `save` command + replay, and forks, compared on full observations",
+        "For every history (up to the length bound, over an alphabet of definitions, redefinitions, shadowing, function values, lists, prints, ans, imports) whose inputs all succeed one at a time: every composition into multi-line blocks, the file written by the real `save` command (with failing lines interleaved) replayed line by line and as one input, and a copy taken before the last input, must all give the same definitions, raw values, printed output and results; copies must not affect each other.",
+        "Trusted: the observation function; a batch is taken to report the last value any of its lines produces (numbat's documented multi-line behaviour); single-line inputs only.",
+        "§4 C07",
+    ),
     "C11": (
         "E3",
         "exhaustive sweep of all ordered same-dimension unit pairs x magnitude alphabet x operand shapes through the real interpreter; symmetry/trichotomy/NaN laws judged on every case",
